@@ -420,5 +420,9 @@ func runTail(x *extRun, tail0 int) bool {
 	c.Floor("sum-wrap/exact-sum-of-two-volumes-was-accepted", exactOK > 0)
 	c.Floor("sum-wrap/sum-that-misses-the-size-was-refused", wrongRefused > 0)
 	c.Floor("sum-wrap/wrapping-sum-reached-the-parse", wrapAccepted+wrapRefused > 0)
+	// the stratum appended behind sum-wrap (decl.go)
+	if !runDecl(x, tail0+nRO+nSW, overBudgetSeen) {
+		generatorOK = false
+	}
 	return generatorOK
 }
